@@ -52,6 +52,56 @@ def specRoundtrip (classes : Classes) (evalAtom : List String → Option Atom) (
     if sEqv classes recon orig then none
     else some "the text evaluates to an object with different parameter values"
 
+/-! ### well-formedness: the hypotheses of the round-trip theorem -/
+
+mutual
+def noObj : Lit → Bool
+  | .atom _ => true
+  | .list xs => noObjL xs
+  | .tuple xs => noObjL xs
+  | .set _ => true
+  | .dict _ vs => noObjL vs
+  | .obj _ _ => false
+def noObjL : List Lit → Bool
+  | [] => true
+  | x :: xs => noObj x && noObjL xs
+end
+
+/-- the constructor signatures the theorem covers: positional-or-keyword arguments (with or
+without defaults) named like parameters, `**params`, no `*args`, no keyword-only arguments,
+`name` not among the explicit arguments -/
+def SigOK (cls : Cls) : Prop :=
+  cls.sig.varargs = none ∧ cls.sig.kwonly = [] ∧ cls.sig.varkw = true ∧ cls.sig.args.Nodup ∧
+  (∀ a ∈ cls.sig.args, a ∈ cls.params.map (·.name)) ∧ "name" ∉ cls.sig.args ∧
+  cls.sig.defaults.length ≤ cls.sig.args.length
+
+/-- the class is the one Python finds under its name; parameter names are distinct -/
+def ClsOK (classes : Classes) (c : Nat) (cls : Cls) : Prop :=
+  classes.findIdx? (·.name == cls.name) = some c ∧ classes.find? (·.name == cls.name) = some cls ∧
+  cls.name ≠ "set" ∧ (cls.params.map (·.name)).Nodup ∧ SigOK cls
+
+/-- the `name` parameter holds a string which is either of the auto-generated form or differs
+from the class-level default of `name` (which is the class name) -/
+def NameOK (cls : Cls) (vals : List Lit) : Prop :=
+  ∀ p v, (p, v) ∈ cls.params.zip vals → p.name = "name" →
+    ∃ a, v = .atom a ∧ a.kind = .str ∧ (isAutoLike cls.name a.text = true ∨ isEqual v p.default = false)
+
+mutual
+/-- "a Parameterized object whose parameter values are literals, containers of literals or
+nested Parameterized objects" (of classes satisfying `ClsOK`) -/
+def WF (classes : Classes) : Lit → Prop
+  | .atom a => a.kind ≠ .auto
+  | .list xs => WFL classes xs
+  | .tuple xs => WFL classes xs
+  | .set xs => ∀ a ∈ xs, a.kind ≠ .auto
+  | .dict ks vs => (∀ a ∈ ks, a.kind ≠ .auto) ∧ ks.length = vs.length ∧ WFL classes vs ∧ noObjL vs = true
+  | .obj c vals => ∃ cls, classes[c]? = some cls ∧ ClsOK classes c cls ∧ vals.length = cls.params.length ∧
+      NameOK cls vals ∧ WFL classes vals
+def WFL (classes : Classes) : List Lit → Prop
+  | [] => True
+  | x :: xs => WF classes x ∧ WFL classes xs
+end
+
 /-! atoms occurring in a case: the table the driver's `evalAtom` looks tokens up in -/
 mutual
 def atomsOf : Lit → List Atom
